@@ -387,8 +387,10 @@ TransFaulty == {WithFault(TransThenFail, "r3", 1, h) : h \in {"err", "panic", "c
           \cup {WithFault(GroupTransDeps, "r1", 1, h) : h \in {"err", "panic"}}
 \* a singleton that is handed the provider, then a failure later in the same Build
 BuiltinFaulty == {WithFault(Builtin, "r4", 1, h) : h \in {"err", "panic"}}
+\* an initialization function that was handed the new scope (and its context) and fails at a scope creation
+BuiltinCreateFaulty == {WithFault(Builtin, "r4", at, h) : at \in {2, 3}, h \in {"err", "panic"}}
 IfaceFaulty == {WithFault(Iface, "r1", at, h) : at \in {1, 2}, h \in {"nil", "err"}} \cup {WithFault(IfaceSing, "r1", 1, "nil")}
-Faulty == Sane(FaultyAll) \cup CancelFaulty \cup IfaceFaulty \cup Sane(TransFaulty) \cup Sane(BuiltinFaulty)
+Faulty == Sane(FaultyAll) \cup CancelFaulty \cup IfaceFaulty \cup Sane(TransFaulty) \cup Sane(BuiltinFaulty) \cup Sane(BuiltinCreateFaulty)
 NilFaulty == {WithFault(Basic, r, 1, "nil") : r \in {"r1", "r2", "r3"}}
 
 \* a constructor failure AND a failing Close of something the failed call had already created: the clean-up of a
